@@ -217,3 +217,8 @@ package auth
 //@     invariant true
 //@   loop 2
 //@     invariant forall k string :: visited(k) ==> (k in old(c.ClientConfigs)) && old(c.ClientConfigs[k].ID) != "" && old(c.ClientConfigs[k].Secret) != ""
+
+// ---- C18: the authenticator's cookies carry the configured attributes ----------------------------------------------
+//@ func SetCookieStore$1$1(c *sessions.CookieStore) error
+//@   modifies c.CookieDomain, c.CookieHTTPOnly, c.CookieExpire, c.CookieSecure
+//@   ensures [C18] cookie_attributes_are_the_configured_ones: result == nil && c.CookieDomain == cc.Domain && c.CookieHTTPOnly == cc.HTTPOnly && c.CookieExpire == cc.Expire && c.CookieSecure == cc.Secure
